@@ -901,6 +901,8 @@ def _node_class(r):
         return "rpow"
     if k == "phi":
         return f"phi:{r[1]}:{len(r[2])}"
+    if k == "powi" and r[1][0] in ("add", "sub", "mul", "div", "neg") and r[2] >= 2:
+        return f"powi:{r[2]}"       # (sum)^n: make the bases syntactically equal instead of letting ring expand them
     return None
 
 
@@ -1377,3 +1379,22 @@ def numeric_only_check(ctx, c, rng):
                 found_input=True)
             return "DIFFERENT"
     return "agree at seeded complex valuations"
+
+
+def precheck(ctx, c, rng, tries=8):
+    """Before spending kernel time: evaluate both readings of a lemma-case at a few seeded valuations inside the
+    hypotheses.  A difference is already a violation with a concrete failing input (the lemma is then not emitted)."""
+    info = c["info"]
+    for o, p in zip(c["sides"], info["parsed_rtrees"]):
+        found = find_distinguishing(rng, o, p, info["hyp_trees"], tries=tries)
+        if found:
+            val, va, vb = found
+            ctx.violation(c["vkey"], f"rendering {c['s']!r} of {c['key']} denotes a different value than the expression "
+                f"(e.g. at {val}: original {va}, rendering {vb})",
+                {"kind": "violation", "item": c["key"], "origin": c["origin"], "rendering": c["s"],
+                 "parsed_as": aexpr_show(c["parsed"]), "original": str(c["expr"]), "original_srepr": c.get("srepr", ""),
+                 "hypotheses": info["hyps"], "valuation": val, "value_of_original": str(va),
+                 "value_of_rendering": str(vb), "theorem_or_tie": c["lemma"].name, "sample_index": c.get("sample_index")},
+                found_input=True)
+            return True
+    return False
